@@ -7,7 +7,7 @@ from pyg_base._dict import _tree_setitem, dictattr, _tree_types
 def _table_to_tree(tree, pattern, d, base, ignore = None, types = None):
     path = pattern.split('/')
     item = [d[p[1:]] if p.startswith('%') else p for p in path]
-    _tree_setitem(tree, item, base = base, ignore = ignore, types = types)
+    _tree_setitem(tree, item, base = base, ignore = ignore, types = types, copy_branches = True)
     
 
 def table_to_tree(tree, pattern, table, base = dictattr, ignore = None, types = None):
